@@ -3,6 +3,7 @@ package main
 
 import (
 	"fmt"
+	"math/rand"
 	"strings"
 	"sync"
 
@@ -24,13 +25,41 @@ func main() {
 		positions = specgen.Positions
 	}
 	groups := modelrig.MakeGroups(atoms, positions)
+	bad := judgeAll(c, swagger, groups, "")
+	// pass B: composite objects of atoms that held alone at the property / items positions
+	rng := rand.New(rand.NewSource(c.Seed))
+	var pool []*specgen.SchemaAtom
+	for i := range atoms {
+		a := &atoms[i]
+		if !a.RootOnly && !a.NoValidate && !bad[a.ID+"@reqprop"] && !bad[a.ID+"@optprop"] && !bad[a.ID+"@items"] && !bad[a.ID+"@def"] {
+			pool = append(pool, a)
+		}
+	}
+	c.Extra["pass_b_pool"] = len(pool)
+	var groupsB []modelrig.Group
+	for k := 0; k < c.Pick(40, 400) && len(pool) > 0; k++ {
+		groupsB = append(groupsB, modelrig.Composite(k, pool, rng, []string{"req", "opt", "items"}))
+	}
+	if len(groupsB) > 0 {
+		judgeAll(c, swagger, groupsB, "B:")
+	}
+	finish(c)
+}
+
+// judgeAll exercises the groups and returns the atom@pos that showed a violation.
+func judgeAll(c *core.Ctx, swagger string, groups []modelrig.Group, pass string) map[string]bool {
+	bad := map[string]bool{}
 	results, failures, units := modelrig.Exercise(c, swagger, groups, nil, 110)
 	for _, f := range failures {
 		c.Note("%s@%s not exercised: %s failed (C01's subject)", f.Group.Placed.Atom.ID, f.Group.Placed.Pos, f.Stage)
+		bad[f.Group.Placed.Atom.ID+"@"+f.Group.Placed.Pos] = true
 	}
 	judged, skippedInvalid, tolerated := 0, 0, map[string]int{}
 	for _, r := range results {
 		who := r.Group.Placed.Atom.ID + "@" + r.Group.Placed.Pos
+		if pass != "" {
+			who = attribute(r)
+		}
 		if r.Crash != "" || r.Ans.NoSuchDef {
 			continue // C02 reports crashes
 		}
@@ -50,12 +79,14 @@ func main() {
 		label := r.Case.Variant.Label
 		if r.Ans.EncErr != "" {
 			c.Eval(who + "/encode-error")
-			c.Violation(fmt.Sprintf("C05/%s/encode-error", who), fmt.Sprintf("a decoded valid document cannot be encoded again: %s (%s)", r.Ans.EncErr, jx.Compact(r.Case.Variant.Doc)), files(r.Ans.EncErr))
+			bad[who] = true
+			c.Violation(fmt.Sprintf("C05/"+pass+"%s/encode-error", who), fmt.Sprintf("a decoded valid document cannot be encoded again: %s (%s)", r.Ans.EncErr, jx.Compact(r.Case.Variant.Doc)), files(r.Ans.EncErr))
 			continue
 		}
 		out, err := jx.Parse([]byte(r.Ans.Enc))
 		if err != nil {
-			c.Violation(fmt.Sprintf("C05/%s/output-not-json", who), "encoder output is not JSON: "+r.Ans.Enc, files(err.Error()))
+			bad[who] = true
+			c.Violation(fmt.Sprintf("C05/"+pass+"%s/output-not-json", who), "encoder output is not JSON: "+r.Ans.Enc, files(err.Error()))
 			continue
 		}
 		issues := mo.RoundTrip(r.Case.Def, r.Case.Variant.Doc, out)
@@ -66,7 +97,13 @@ func main() {
 		}
 		c.Eval(who + "/" + strings.SplitN(label, "@", 2)[0] + "/" + sig)
 		for _, is := range issues {
-			c.Violation(fmt.Sprintf("C05/%s/%s@%s", who, is.Kind, is.Path),
+			w, ipath := who, is.Path
+			if pass != "" {
+				// attribute to the atom of the property in which the issue sits, drop the property index
+				w, ipath = atomAtPath(r, is.Path)
+			}
+			bad[w] = true
+			c.Violation(fmt.Sprintf("C05/"+pass+"%s/%s@%s", w, is.Kind, ipath),
 				fmt.Sprintf("decode→encode of a valid %s document: %s (input %s, output %s)", r.Case.Def, is.Detail, jx.Compact(r.Case.Variant.Doc), r.Ans.Enc), files(is.Kind+" "+is.Path+": "+is.Detail))
 		}
 		if len(issues) == 0 && sig != "exact" {
@@ -74,25 +111,62 @@ func main() {
 		}
 		// idempotence: encoding the re-decoded output reproduces it exactly
 		if r.Ans.Dec2Err != "" {
-			c.Violation(fmt.Sprintf("C05/%s/output-not-decodable", who), fmt.Sprintf("the model's own output does not decode again: %s (output %s)", r.Ans.Dec2Err, r.Ans.Enc), files(r.Ans.Dec2Err))
+			bad[who] = true
+			c.Violation(fmt.Sprintf("C05/"+pass+"%s/output-not-decodable", who), fmt.Sprintf("the model's own output does not decode again: %s (output %s)", r.Ans.Dec2Err, r.Ans.Enc), files(r.Ans.Dec2Err))
 		} else if r.Ans.Enc2 != r.Ans.Enc {
-			c.Violation(fmt.Sprintf("C05/%s/not-idempotent", who), fmt.Sprintf("encode(decode(output)) differs from output: %s vs %s", r.Ans.Enc2, r.Ans.Enc), files("not idempotent"))
+			bad[who] = true
+			c.Violation(fmt.Sprintf("C05/"+pass+"%s/not-idempotent", who), fmt.Sprintf("encode(decode(output)) differs from output: %s vs %s", r.Ans.Enc2, r.Ans.Enc), files("not idempotent"))
 		}
 		// polymorphism: concrete subtype restored
 		if r.Group.Placed.Atom.Poly && r.Case.Variant.Path == "via-base" {
 			kind, _ := r.Case.Variant.Doc.(J)["kind"].(string)
 			c.Eval(who + "/poly-restored/" + kind)
 			if !strings.HasSuffix(strings.ToLower(r.Ans.GoType), strings.ToLower(kind)) {
-				c.Violation(fmt.Sprintf("C05/%s/subtype-not-restored", who), fmt.Sprintf("document with discriminator %q decoded through the base type gives Go type %s", kind, r.Ans.GoType), files(r.Ans.GoType))
+				bad[who] = true
+				c.Violation(fmt.Sprintf("C05/"+pass+"%s/subtype-not-restored", who), fmt.Sprintf("document with discriminator %q decoded through the base type gives Go type %s", kind, r.Ans.GoType), files(r.Ans.GoType))
 			}
 		}
 	}
-	c.Extra["documents_judged"] = judged
-	c.Extra["documents_skipped_not_valid_or_not_decoded"] = skippedInvalid
-	c.Extra["groups_with_tolerated_differences"] = len(tolerated)
+	c.Extra["documents_judged"+pass] = judged
+	c.Extra["documents_skipped_not_valid_or_not_decoded"+pass] = skippedInvalid
+	c.Extra["groups_with_tolerated_differences"+pass] = len(tolerated)
 	for _, u := range units {
 		u.Cleanup()
 	}
+	return bad
+}
+
+// attribute maps a pass-B issue to the atom of the property it touches.
+func attribute(r modelrig.Result) string {
+	seg := strings.SplitN(strings.TrimPrefix(r.Case.Variant.Path, "/"), "/", 2)[0]
+	seg = strings.TrimSuffix(seg, "[]")
+	if p, ok := r.Group.Placed.Schema["properties"].(J)[seg].(J); ok {
+		if id, ok := p["x-vf-atom"].(string); ok {
+			return id
+		}
+	}
+	return "composite"
+}
+
+func atomAtPath(r modelrig.Result, path string) (string, string) {
+	parts := strings.SplitN(strings.TrimPrefix(path, "/"), "/", 2)
+	seg := strings.TrimSuffix(parts[0], "[]")
+	rest := ""
+	if len(parts) == 2 {
+		rest = "/" + parts[1]
+	}
+	if strings.HasSuffix(parts[0], "[]") {
+		rest = "[]" + rest
+	}
+	if p, ok := r.Group.Placed.Schema["properties"].(J)[seg].(J); ok {
+		if id, ok := p["x-vf-atom"].(string); ok {
+			return id, rest
+		}
+	}
+	return "composite", path
+}
+
+func finish(c *core.Ctx) {
 	c.Finish("every schema-shape atom at each position; every instgen document that the reference validator accepts is decoded by the generated model, encoded, decoded and encoded again; schema-directed comparison of input and output trees with exactly the three documented tolerances, byte idempotence of the second encoding, concrete subtype restored through base types; distinct = (atom, position, document class, exact|tolerated) combinations",
 		800, 200, []string{
 			"document validity decided by go-openapi/validate v0.24.0 (C02's oracle); only valid, decodable documents are judged",
